@@ -1,4 +1,6 @@
 import OrsoVerif.Model.PyVal
+import OrsoVerif.Model.Np
+import OrsoVerif.Model.NpDtype
 import OrsoVerif.Generated.Encodings
 /-!
 # C09 — the compressed column encodings of `orso/schema.py`
@@ -55,10 +57,7 @@ def RLE.mapValues (f : α → β) (e : RLE α) : RLE β := ⟨e.values.map f, e.
 
 /-! ## Dictionary encoding (`DictionaryColumn`, schema.py:471-493) -/
 
-/-- Distinct elements (first occurrences, in order of the last occurrence scan). -/
-def dedup [DecidableEq α] : List α → List α
-  | [] => []
-  | x :: xs => if x ∈ dedup xs then dedup xs else x :: dedup xs
+/-! (`dedup`, the distinct elements of a list, is in `Model/Np.lean`.) -/
 
 /-- The stored form: `self.values` (sorted distinct entries) and `self.encoding`. -/
 structure Dict (α : Type) where
@@ -98,10 +97,7 @@ def sparseEncode (ne : α → α → Bool) (d : α) (xs : List α) : Sparse α :
   let ps := sparseScan ne d 0 xs
   ⟨ps.map (·.1), ps.map (·.2), xs.length⟩
 
-/-- `materialized[indices] = values` one assignment at a time; `none` is numpy's `IndexError`. -/
-def scatter : List α → List (Nat × α) → Option (List α)
-  | acc, [] => some acc
-  | acc, (i, v) :: ps => if i < acc.length then scatter (acc.set i v) ps else none
+/-! (`scatter`, `materialized[indices] = values` one assignment at a time, is in `Model/Np.lean`.) -/
 
 /-- `SparseColumn.materialize`: a default-filled array of the total length, then the scatter.
 `none` stands for what numpy refuses (index out of range) or what is outside the model
@@ -177,6 +173,26 @@ def kind : DType → String
   | .bool => "b" | .int => "i" | .float => "f" | .str _ => "U" | .object => "O"
 
 end DType
+
+/-- The five-point lattice as an abstraction of numpy's dtypes: every integer width is `int`, every
+float width `float`; complex numbers are outside the property's element kinds (`none`). -/
+def NpDType.abs : NpDType → Option DType
+  | .object => some .object
+  | .str w => some (.str w)
+  | .num n =>
+    match Gen.NpDtypes.kind n with
+    | .b => some .bool
+    | .i | .u => some .int
+    | .f => some .float
+    | _ => none
+
+/-- `numpy.array(list).dtype` with the widths numpy chooses: `int64`, `float64`, `bool`. -/
+def DType.np : DType → NpDType
+  | .bool => .num .bool
+  | .int => .num .i64
+  | .float => .num .f64
+  | .str w => .str w
+  | .object => .object
 
 def inInt64 (i : Int) : Bool := -9223372036854775808 ≤ i && i ≤ 9223372036854775807
 
